@@ -55,11 +55,11 @@ func refBlank(s string, n int) bool {
 		}
 		if i+2 < n {
 			c1, c2 := s[i+1], s[i+2]
-			t := v.B2I(c0 == 0xE1) & v.B2I(c1 == 0x9A) & v.B2I(c2 == 0x80)                                   // U+1680
-			t |= v.B2I(c0 == 0xE2) & v.B2I(c1 == 0x80) & v.B2I(c2 >= 0x80) & v.B2I(c2 <= 0x8A)                // U+2000..200A
+			t := v.B2I(c0 == 0xE1) & v.B2I(c1 == 0x9A) & v.B2I(c2 == 0x80)                                           // U+1680
+			t |= v.B2I(c0 == 0xE2) & v.B2I(c1 == 0x80) & v.B2I(c2 >= 0x80) & v.B2I(c2 <= 0x8A)                       // U+2000..200A
 			t |= v.B2I(c0 == 0xE2) & v.B2I(c1 == 0x80) & (v.B2I(c2 == 0xA8) | v.B2I(c2 == 0xA9) | v.B2I(c2 == 0xAF)) // U+2028 2029 202F
-			t |= v.B2I(c0 == 0xE2) & v.B2I(c1 == 0x81) & v.B2I(c2 == 0x9F)                                   // U+205F
-			t |= v.B2I(c0 == 0xE3) & v.B2I(c1 == 0x80) & v.B2I(c2 == 0x80)                                   // U+3000
+			t |= v.B2I(c0 == 0xE2) & v.B2I(c1 == 0x81) & v.B2I(c2 == 0x9F)                                           // U+205F
+			t |= v.B2I(c0 == 0xE3) & v.B2I(c1 == 0x80) & v.B2I(c2 == 0x80)                                           // U+3000
 			r |= t & ws[i+3]
 		}
 		ws[i] = r
